@@ -7,9 +7,11 @@
    STOP_END key and every delay whose DELAY_END key is passed.  Monotonicity in (beat, tag), the offset
    law, the BPM reported for a beat and the ordering / coalescing invariants are separate theorems.
    C11_redundant_bpm: inserting a BPM row that repeats the BPM in force changes no time_at answer.
-   Left to the correspondence: the binary64 gap (measured, 1e-9 s) and queries tagged WARP / WARP_END on beat 0 itself. *)
+   C11_zero_low_tags / C11_time_monotone_every_key: queries tagged WARP / WARP_END on beat 0 answer -offset, and time
+   never decreases between ANY two keys (all beats, all tags).
+   Left to the correspondence: the binary64 gap (measured, 1e-9 s). *)
 From Coq Require Import List ZArith QArith Bool Sorting.Sorted Lia Lqa.
-From SV Require Import Sx Beat Engine Generated.Tables Proofs.EngineFacts Proofs.Hittable Proofs.TimeLaw Proofs.RedundantBpm.
+From SV Require Import Sx Beat Engine Generated.Tables Proofs.EngineFacts Proofs.Hittable Proofs.TimeLaw Proofs.RedundantBpm Proofs.ZeroTags.
 Import ListNotations.
 Open Scope Q_scope.
 
@@ -111,6 +113,21 @@ Theorem C11_time_monotone_all_tags : forall td b0 v0 rest, dom td -> td_bpms td 
   time_at (sts td v0) (init_state td v0) b1 t1 <= time_at (sts td v0) (init_state td v0) b2 t2.
 Proof. exact time_at_monotone_gen. Qed.
 Print Assumptions C11_time_monotone_all_tags.
+
+(* beat 0 under the tags below BPM (WARP, WARP_END): the key precedes the initial state's own key, so bisect runs on a
+   list that is not sorted for it; whatever boundary it returns is a state on beat 0 at time -offset, and no delay or
+   stop on beat 0 is counted (they count from their END tags on) *)
+Theorem C11_zero_low_tags : forall td b0 v0 rest, dom td -> td_bpms td = (b0, v0) :: rest ->
+  forall tag, (tag < 2)%Z -> time_at (sts td v0) (init_state td v0) 0 tag == - td_offset td.
+Proof. exact time_at_zero_low. Qed.
+Print Assumptions C11_zero_low_tags.
+
+(* "time never decreases as (beat, tag) increases": every pair of keys - negative beats, beat 0, every tag *)
+Theorem C11_time_monotone_every_key : forall td b0 v0 rest, dom td -> td_bpms td = (b0, v0) :: rest -> b0 == 0 ->
+  forall b1 t1 b2 t2, b1 <= b2 -> (b1 == b2 -> (t1 <= t2)%Z) ->
+  time_at (sts td v0) (init_state td v0) b1 t1 <= time_at (sts td v0) (init_state td v0) b2 t2.
+Proof. exact time_at_monotone_full. Qed.
+Print Assumptions C11_time_monotone_every_key.
 
 (* inserting a BPM change that repeats the BPM already in force changes no answer: td' is td with the row (x, v)
    inserted among the BPMS, everything else equal, v the BPM in force at x in td *)
